@@ -182,7 +182,7 @@ def enumerate_case(case, mode, errnos, rep, tier, rng):
             obs = dict(call="%s#%d %s %s" % (c.name, c.nth, c.kind, sb.rel(c.paths[-1]) if c.paths else ""), label=label, inject=inj,
                        upgrade=(case.kind == "upgrade"),
                        rc=r["rc"], err=r["err"][-300:], cls=cls, kind=case.kind, T=T, T_old=T_old, T_new=T_new, oroot=oroot, v=v,
-                       other_ok=(canon_obj(sb, object_root(sb, "other") or "") == other_new), staged_dir=staged_dir)
+                       other_ok=(canon_obj(sb, object_root(sb, "other") or "") == other_new), staged_dir=staged_dir, calls=r["calls"])
             rep.count("fault:%s:%s:%s:%s" % (mode, case.kind, label, cls))
             rep.classes.add("%s|%s|%s|%s|rc%d" % (mode, case.kind, label, cls, min(r["rc"], 3) if r["rc"] >= 0 else -1))
             yield c, obs
